@@ -34,7 +34,14 @@ def check(run):
     acc = vlib.accepted(run, exe, U, regex_extra=100, rnd=rnd)
     rtexts = {e: [] for e in ECOS}
     for j in check_c02.gen_round(run, exe, {e: acc[e] for e in check_c02.ECOS}, rnd, 0, 0): rtexts[j["eco"]].append(j["text"])
-    for v in check_c05.vectors(run): rtexts[v["eco"]].append(v["text"])
+    perconstruct = {e: {} for e in ECOS}
+    for v in check_c05.vectors(run):
+        rtexts[v["eco"]].append(v["text"])
+        perconstruct[v["eco"]].setdefault(v["construct"], []).append(v["text"])
+    # always present: one range per shorthand construct (every arity) and the plain numeric versions in 1-3 part
+    # spellings; the remaining places are filled by shape-stratified sampling
+    must_r = {e: [rnd.choice(sorted(ts)) for c, ts in sorted(perconstruct[e].items())] for e in ECOS}
+    fam = vlib.accept_filter(run, exe, {e: ["1", "1.0", "1.0.0", "2", "1.5", "v1.0.0", "0.0.1"] for e in ECOS}, name="fam")
     ch = versgen.chains(run)
     nv, nr = (8, 40) if quick else (14, 120)
     # VERS: the same constraint text under every scheme that accepts its versions (history across schemes)
@@ -44,7 +51,8 @@ def check(run):
     versprobes = ["1.0.0", "1.0.0-beta5", "1.5", "2.0.7", "1.0.0-rc.3", "v1.0.0", "1.0~rc2"]
     base_jobs = []
     for e in ECOS:
-        base_jobs.append({"k": "conc", "eco": e, "versions": vlib.stratified(acc[e], nv, rnd), "ranges": vlib.stratified(rtexts[e] or ["1.0"], nr, rnd),
+        base_jobs.append({"k": "conc", "eco": e, "versions": list(dict.fromkeys(fam[e][:5] + vlib.stratified(acc[e], nv, rnd))),
+                          "ranges": list(dict.fromkeys(must_r[e] + vlib.stratified(rtexts[e] or ["1.0"], nr, rnd))),
                           "versranges": versranges if e in ("npm", "maven") else [], "versprobes": versprobes, "g": 16 if quick else 32,
                           "rounds": 2 if quick else 6})
     traces = []
